@@ -224,6 +224,7 @@ func RunWeb(line string) string {
 	http.DefaultTransport.(*http.Transport).CloseIdleConnections()
 	time.Sleep(2 * time.Millisecond)
 	baseline := runtime.NumGoroutine()
+	preexisting := c01.BridgeGoroutineSnapshot()
 
 	var bridge http.Handler
 	switch kv["en"] {
@@ -286,6 +287,11 @@ func RunWeb(line string) string {
 		}
 		time.Sleep(5 * time.Millisecond)
 	}
+	// …and nothing may be left inside the bridge's own code (handlers, stream adapters, withCtx helpers) now
+	// that everything such a goroutine could wait for is released: the connection and the server are closed,
+	// the scripted target only ever blocks on the call's context. (A helper that is abandoned WHILE its
+	// operation is still blocked is the known finding C18/D21 and is not what is judged here.)
+	gor, gwhere := c01.WaitBridgeGoroutinesGone(c01.GoroutineGrace, preexisting)
 	b2 := func(b bool) string {
 		if b {
 			return "1"
@@ -294,8 +300,8 @@ func RunWeb(line string) string {
 	}
 	t.mu.Lock()
 	defer t.mu.Unlock()
-	return fmt.Sprintf("got.done=%s got.out=%s got.closed=%s got.handler=%s got.fwd=%d got.leak=%d got.streams=%d",
-		b2(o.done), o.out, b2(closed), b2(handler), fwd, leak, t.streams)
+	return fmt.Sprintf("got.done=%s got.out=%s got.closed=%s got.handler=%s got.fwd=%d got.leak=%d got.streams=%d got.gor=%d got.gwhere=%s",
+		b2(o.done), o.out, b2(closed), b2(handler), fwd, leak, t.streams, gor, gwhere)
 }
 
 // webHTTP: server-streaming method over transcoded HTTP; the request body is complete, the client only reads.
@@ -479,7 +485,7 @@ func GenWeb(r *rand.Rand, tier string, emit func(string)) {
 		case n > 0:
 			out = "http200" // the status line went out with the first record
 		}
-		emit(fmt.Sprintf("web en=%s sc=%s n=%d code=%d want.done=1 want.out=%s want.closed=1 want.handler=1 want.fwd=0 want.leak=0 want.streams=1", en, sc, n, code, out))
+		emit(fmt.Sprintf("web en=%s sc=%s n=%d code=%d want.done=1 want.out=%s want.closed=1 want.handler=1 want.fwd=0 want.leak=0 want.streams=1 want.gor=0", en, sc, n, code, out))
 	}
 	codesErr := []int{int(codes.Aborted), int(codes.PermissionDenied), int(codes.Unavailable), int(codes.Internal)}
 	for _, en := range []string{"http", "ws", "grpcweb", "grpcws"} {
